@@ -52,6 +52,9 @@ def gen_step_(rng, g, prev=None):
                 mt = {'pos': [t], 'neg': []} if rng.random() < 0.7 else {'pos': [], 'neg': [t]}
                 return mgen.Render().matcher(mt), mt
     if r < 0.1:
+        if rng.random() < 0.08:
+            k = rng.choice([600, 900, 1500, 3000])      # nested deeper than the interpreter's stack: cannot be parsed, must be reported like any other
+            return rng.choice(['[' * k + 'x' + ']' * k, 'x(' + '[' * k + 'y' + ']' * k + ')', '[' * k + '! x' + ']' * k]), None
         return rng.choice(BAD), None
     if r < 0.17:
         return '*', {'pos': [dict(mgen.ANY)], 'neg': []}
